@@ -16,6 +16,7 @@ import (
 	"go/parser"
 	"go/token"
 	"go/types"
+	"math/big"
 	"os"
 	"path/filepath"
 	"regexp"
@@ -55,6 +56,7 @@ func main() {
 	listOnly := flag.Bool("list", false, "list entries and exit")
 	cpuprof := flag.String("cpuprofile", "", "write a CPU profile of the run")
 	workers := flag.Int("workers", 0, "path-exploration workers per entry (0 = share 16 cores among running entries)")
+	concrete := flag.String("concrete", "", "translator validation: JSON list of {entry, model, params}; each is run on its one concrete path")
 	flag.Parse()
 	if *cpuprof != "" {
 		f, _ := os.Create(*cpuprof)
@@ -173,6 +175,66 @@ func main() {
 	funcIndex := map[string]*ssa.Function{}
 	for fn := range ssautil.AllFunctions(prog) {
 		funcIndex[fn.String()] = fn
+	}
+
+	if *concrete != "" {
+		type item struct {
+			Entry  string            `json:"entry"`
+			Model  map[string]string `json:"model"`
+			Params map[string]int    `json:"params"`
+		}
+		var items []item
+		bz, err := os.ReadFile(*concrete)
+		if err != nil {
+			fatalf("read %s: %v", *concrete, err)
+		}
+		if err := json.Unmarshal(bz, &items); err != nil {
+			fatalf("parse %s: %v", *concrete, err)
+		}
+		byName := map[string]*entrySpec{}
+		for _, sp := range specs {
+			byName[sp.name] = sp
+		}
+		var outList []map[string]interface{}
+		for _, it := range items {
+			sp := byName[it.Entry]
+			fn := mainPkg.Func(it.Entry)
+			if sp == nil || fn == nil {
+				outList = append(outList, map[string]interface{}{"entry": it.Entry, "error": "entry not found"})
+				continue
+			}
+			c := buildConfig(sp, *tier)
+			for k, v := range it.Params {
+				c.Params[k] = v
+			}
+			c.Concrete = map[string]*big.Int{}
+			for k, v := range it.Model {
+				b, ok := new(big.Int).SetString(v, 10)
+				if ok {
+					c.Concrete[k] = b
+				}
+			}
+			c.Workers = 1
+			r := &Run{cfg: c, prog: prog, pkg: mainPkg, entry: fn, obMap: map[string]*Obligation{}, reachMap: map[string]*ReachRec{},
+				incSet: map[string]bool{}, violSeen: map[string]int{}, initSnap: map[*ssa.Package]*pkgSnap{}, errorStringT: errStrT, bigIntT: bigIntT, funcIndex: funcIndex}
+			r.res = &EntryResult{Entry: it.Entry, Package: mainPkg.Pkg.Path(), Options: sp.opts, Aborted: map[string]int{}, AbortSamples: map[string]string{},
+				FuncsReal: map[string]int{}, FuncsStubbed: map[string]int{}, Panics: map[string]int{}, Events: map[string]int{}, Bounds: map[string]int{}}
+			res := r.Execute()
+			var reached []string
+			for _, rr := range res.Reach {
+				reached = append(reached, rr.ID)
+			}
+			outList = append(outList, map[string]interface{}{"entry": it.Entry, "failed": res.ConcreteFailed, "nonconcrete": res.ConcreteNonConcrete, "reached": reached,
+				"assume_failed": res.Aborted["assume"] > 0, "panicked": len(res.Panics) > 0, "paths": res.Paths, "aborted": res.Aborted,
+				"inconclusive": res.Inconclusive, "engine_error": res.EngineError})
+		}
+		js, _ := json.MarshalIndent(outList, "", " ")
+		if *out != "" {
+			os.WriteFile(*out, js, 0o644)
+		} else {
+			os.Stdout.Write(js)
+		}
+		return
 	}
 
 	results := make([]*EntryResult, len(sel))
